@@ -7,6 +7,11 @@
   subscriber belong to the subscriber's own trigger generation, carry strictly increasing event numbers (in order, none
   twice), are events that pass its filter, and none is numbered above the trigger's last event.
 
+  The filter decision (Misc.SubFilter, the meaning of "passes its filter"; the driver evaluates it for every generated
+  filter tree and the harness compares SkipEvent with it): And skips when one child skips, Or when all do, Not inverts;
+  an IN condition passes exactly when the event has the field and some listed value matches it by type and value —
+  which value of the list it is, and in which order the values are listed, is irrelevant.
+
   Not proved here (see DESIGN.md, C12): that every event which passes the filter IS delivered to a subscriber that
   stays registered (liveness of a fan-out: the model lets `fanOne` happen, it does not force it), and that each
   message is the response the event would produce for that subscriber alone (the payload is abstracted to the event
@@ -15,6 +20,7 @@
 -/
 import GqlVerif.Proofs.C12
 import GqlVerif.Proofs.C12Ord
+import GqlVerif.Proofs.C12Filter
 namespace GqlVerif.Props.C12
 open GqlVerif.Subs
 
@@ -55,6 +61,79 @@ theorem delivered_passed_filter {s : St} (hs : Reach s) (i : Nat) (x : Sub) (hx 
 theorem delivered_not_beyond_last_event {s : St} (hs : Reach s) (i : Nat) (x : Sub) (hx : s.subs i = some x)
     (G : Gen) (hG : s.gens x.gen = some G) : ∀ p ∈ dataCalls x.log, p.2 ≤ G.lastEvent :=
   ((ord_reach hs).sub i x hx).le G hG
+
+/-! ### the filter decision -/
+
+open GqlVerif.SubFilter in
+/-- **and_skips_iff_some_child_skips**, **or_skips_iff_all_children_skip**, **not_inverts** -/
+theorem filter_connectives (event vars : List (String × GqlVerif.Json)) (fs : List Filter) (f : Filter) :
+    (SubFilter.skip event vars (.and fs) = true ↔ ∃ g ∈ fs, SubFilter.skip event vars g = true) ∧
+    (SubFilter.skip event vars (.or fs) = true ↔ ∀ g ∈ fs, SubFilter.skip event vars g = true) ∧
+    SubFilter.skip event vars (.not f) = !SubFilter.skip event vars f := by
+  refine ⟨?_, ?_, ?_⟩
+  · unfold SubFilter.skip
+    simp only [passes, Bool.not_eq_true']
+    constructor
+    · intro h
+      have : ¬ (∀ g ∈ fs, passes event vars g = true) := by
+        intro hall; rw [(passesAll_iff event vars fs).mpr hall] at h; cases h
+      apply Classical.byContradiction
+      intro hne
+      apply this
+      intro g hg
+      cases hp : passes event vars g with
+      | true => rfl
+      | false => exact absurd ⟨g, hg, hp⟩ hne
+    · rintro ⟨g, hg, hp⟩
+      cases hall : passesAll event vars fs with
+      | false => rfl
+      | true => have := (passesAll_iff event vars fs).mp hall g hg; rw [this] at hp; cases hp
+  · unfold SubFilter.skip
+    simp only [passes, Bool.not_eq_true']
+    constructor
+    · intro h g hg
+      cases hp : passes event vars g with
+      | false => rfl
+      | true => have := (passesAny_iff event vars fs).mpr ⟨g, hg, hp⟩; rw [this] at h; cases h
+    · intro h
+      cases hany : passesAny event vars fs with
+      | false => rfl
+      | true =>
+        obtain ⟨g, hg, hp⟩ := (passesAny_iff event vars fs).mp hany
+        have := h g hg; rw [hp] at this; cases this
+  · unfold SubFilter.skip; simp [passes]
+
+open GqlVerif.SubFilter in
+/-- **in_passes_iff_some_value_matches**: an IN condition passes exactly when the event has the field and some listed
+    value (a static value, a variable, or an element of an array-valued variable) equals it in type and value. -/
+theorem in_passes_iff_some_value_matches (event vars : List (String × GqlVerif.Json)) (field : String) (values : List FV) :
+    passes event vars (.isIn field values) = true ↔
+      ∃ fv, lookup event field = some fv ∧ ∃ v ∈ values, ∃ j, valueOf vars v = some j ∧ matchesValue fv j = true := by
+  simp only [passes]; exact inPasses_iff event vars field values
+
+open GqlVerif.SubFilter in
+/-- **in_ignores_position_and_order**: two value lists with the same members decide alike — the decision does not
+    depend on where in the list the matching value stands (the two repaired defects 971143d and 4fdac57 broke this). -/
+theorem in_ignores_position_and_order (event vars : List (String × GqlVerif.Json)) (field : String) (vs ws : List FV)
+    (h : ∀ v, v ∈ vs ↔ v ∈ ws) :
+    passes event vars (.isIn field vs) = passes event vars (.isIn field ws) := by
+  have key : ∀ (xs ys : List FV), (∀ v, v ∈ xs → v ∈ ys) →
+      passes event vars (.isIn field xs) = true → passes event vars (.isIn field ys) = true := by
+    intro xs ys hsub hp
+    obtain ⟨fv, hf, v, hv, j, hj, hm⟩ := (in_passes_iff_some_value_matches event vars field xs).mp hp
+    exact (in_passes_iff_some_value_matches event vars field ys).mpr ⟨fv, hf, v, hsub v hv, j, hj, hm⟩
+  cases h1 : passes event vars (.isIn field vs) with
+  | true => exact (key vs ws (fun v hv => (h v).mp hv) h1).symm
+  | false =>
+    cases h2 : passes event vars (.isIn field ws) with
+    | false => rfl
+    | true => have := key ws vs (fun v hv => (h v).mpr hv) h2; rw [h1] at this; cases this
+
+/-- non-vacuity: IN s ["a", $v] with $v = ["b", "x\"y"] on events with s = x"y / a / c -/
+example : SubFilter.passes [("s", .str "x\"y")] [("v", .arr [.str "b", .str "x\"y"])]
+    (.isIn "s" [.static (.str "a"), .var "v"]) = true := by decide
+example : SubFilter.passes [("s", .str "c")] [("v", .arr [.str "b"])] (.isIn "s" [.static (.str "a"), .var "v"]) = false := by decide
+example : SubFilter.skip [("s", .str "a")] [] (.not (.or [.isIn "s" [.static (.str "a")], .isIn "t" [.static (.num "1")]])) = true := by decide
 
 /-- The completed channel of a subscriber is closed at most once (a second close would be a Go panic), and only after
     the subscriber was removed. -/
